@@ -115,13 +115,14 @@ var specials = func() []special {
 }()
 
 type input struct {
-	Host   string `json:"host"`
-	Scheme string `json:"scheme"` // "" = none given
-	Port   int    `json:"port"`   // -1 = none given
-	Arg    string `json:"arg"`    // what Resolve receives
-	Svcb   string `json:"svcb"`   // RFC 9460 2.3 query name expected by the oracle
-	Class  string `json:"class"`  // normal | host-illegal | svcb-illegal
-	Dotted bool   `json:"dotted,omitempty"` // the host is written with a trailing dot
+	Host      string `json:"host"`
+	Scheme    string `json:"scheme"`           // "" = none given
+	Port      int    `json:"port"`             // -1 = none given
+	Arg       string `json:"arg"`              // what Resolve receives
+	Svcb      string `json:"svcb"`             // RFC 9460 2.3 query name expected by the oracle
+	Class     string `json:"class"`            // normal | host-illegal | svcb-illegal
+	Dotted    bool   `json:"dotted,omitempty"` // the host is written with a trailing dot
+	MixedCase bool   `json:"mixed_case,omitempty"`
 }
 
 func legalName(n string) bool {
@@ -190,6 +191,18 @@ func genInput(rng *mrand.Rand, i int) input {
 		}
 	}
 	in.Arg = in.Host
+	// DNS names compare without regard to case: another spelling of the same host gets the same answers
+	// (the server answers with the owner names as they are stored, in lower case)
+	if !isSp && rng.IntN(9) == 0 {
+		b := []byte(in.Arg)
+		for k := range b {
+			if b[k] >= 'a' && b[k] <= 'z' && rng.IntN(2) == 0 {
+				b[k] -= 'a' - 'A'
+			}
+		}
+		in.Arg = string(b)
+		in.MixedCase = true
+	}
 	// the FQDN spelling of the same host: the same queries, the same answers
 	if !isSp && rng.IntN(7) == 0 && !strings.HasSuffix(in.Host, ".") {
 		in.Arg += "."
